@@ -400,3 +400,65 @@ func hasSymBytes(v []value) bool {
 	}
 	return false
 }
+
+// symPtr is the address of element idx of a table of scalars, idx symbolic. Reading through it
+// yields an ite chain over the elements; writing forks on the index.
+type symPtr struct {
+	base []value
+	idx  *Term // 64-bit, proven in range
+}
+
+func (p *pathCtx) trySymPtr(x value, si symInt) (symPtr, bool) {
+	var base []value
+	switch b := x.(type) {
+	case []value:
+		base = b
+	case *value:
+		if b == nil {
+			return symPtr{}, false
+		}
+		a, ok := (*b).(array)
+		if !ok {
+			return symPtr{}, false
+		}
+		base = []value(a)
+	default:
+		return symPtr{}, false
+	}
+	if len(base) == 0 || len(base) > 512 {
+		return symPtr{}, false
+	}
+	for _, e := range base {
+		switch e.(type) {
+		case symInt, bool, symBool:
+		default:
+			if _, _, ok := intKindOf(e); !ok {
+				return symPtr{}, false
+			}
+		}
+	}
+	idx := p.i64(si)
+	inb := p.ts.Cmp(OpBvUlt, idx, p.ts.BV(uint64(len(base)), 64))
+	if !p.branch(inb, "bounds") {
+		panic(targetPanic{"runtime error: index out of range"})
+	}
+	return symPtr{base: base, idx: idx}, true
+}
+
+func (p *pathCtx) loadSymPtr(sp symPtr) value {
+	ts := p.ts
+	if isBoolVal(sp.base[0]) {
+		r := p.boolTerm(sp.base[len(sp.base)-1])
+		for k := len(sp.base) - 2; k >= 0; k-- {
+			r = ts.Ite(ts.Eq(sp.idx, ts.BV(uint64(k), 64)), p.boolTerm(sp.base[k]), r)
+		}
+		return p.mkBool(r)
+	}
+	last, kind := p.intTerm(sp.base[len(sp.base)-1])
+	r := last
+	for k := len(sp.base) - 2; k >= 0; k-- {
+		t, _ := p.intTerm(sp.base[k])
+		r = ts.Ite(ts.Eq(sp.idx, ts.BV(uint64(k), 64)), t, r)
+	}
+	return p.mkInt(r, kind)
+}
